@@ -12,7 +12,7 @@ class C18(Prop):
     case_imports = ["Moc.Msg", "Moc.Mw", "Moc.MwCheck"]
     harness_bin = "core"
     harness_sub = "c18"
-    sizes = {"quick": 3000, "thorough": 120000}
+    sizes = {"quick": 3000, "thorough": 100000}
     gen_names = ("g_quota_over", "g_recv_unique", "g_send_unique", "g_mw_max_filters", "g_mw_ctor_bad_max_subs")
     max_reports = 3
     rule = ("60% one stateful middleware (quota N, receive-side window, send-side window; N, size cycling through 1,2,3), "
